@@ -1,0 +1,32 @@
+// SPDX-FileCopyrightText: 2026 The Pion community <https://pion.ly>
+// SPDX-License-Identifier: MIT
+
+//go:build verif
+
+// Package verifhook provides scheduling gates for model-based verification harnesses.
+// With the verif build tag off every function is an empty stub.
+package verifhook
+
+import "sync/atomic"
+
+type gateFunc func(name string, obj any)
+
+var gate atomic.Pointer[gateFunc] //nolint:gochecknoglobals
+
+// SetGate installs (or with nil removes) the function called at every gate.
+func SetGate(f func(name string, obj any)) {
+	if f == nil {
+		gate.Store(nil)
+
+		return
+	}
+	g := gateFunc(f)
+	gate.Store(&g)
+}
+
+// Gate is called at a named point of obj; it returns when the installed function returns.
+func Gate(name string, obj any) {
+	if g := gate.Load(); g != nil {
+		(*g)(name, obj)
+	}
+}
